@@ -20,7 +20,8 @@ package faults
 //@   requires s != nil && set_wf(s)
 //@   ensures found: result != nil ==> (exists i int :: 0 <= i && i < len(s.faults[op]) && s.faults[op][i] == result) && matches(result, op, params)
 //@   ensures none: result == nil ==> (forall i int :: 0 <= i && i < len(s.faults[op]) ==> !matches(s.faults[op][i], op, params))
-//@   modifies nothing
+//@   modifies S:lastmatch
+//@   ghostset lastmatch := result
 //@   loop 1
 //@     invariant forall i int :: 0 <= i && i <= idx ==> !matches(s.faults[op][i], op, params)
 
@@ -47,7 +48,7 @@ package faults
 //@   ensures one_decrement: forall d *Description :: allocated(d) ==> d.Count == old(d.Count) ||
 //@             (d.Count == old(d.Count) - 1 && old(matches(d, op, params)) && onfault_calls() == old(onfault_calls()) + 1 &&
 //@              (forall d2 *Description :: allocated(d2) && d2 != d ==> d2.Count == old(d2.Count)))
-//@   modifies F:faults.Description:Count, S:onfault_calls
+//@   modifies F:faults.Description:Count, S:onfault_calls, S:lastmatch
 //@   loop 1
 //@     invariant onfault_calls() == old(onfault_calls())
 //@     invariant forall d *Description :: d.Count == old(d.Count)
@@ -60,6 +61,7 @@ package faults
 //@   requires s != nil && set_wf(s)
 //@   ensures at_most_once: onfault_calls() <= old(onfault_calls()) + 1
 //@   ensures error_only_from_handler: err != nil ==> onfault_calls() == old(onfault_calls()) + 1
+//@   ensures loser_rematches: onfault_calls() == old(onfault_calls()) ==> lastmatch() == nil
 //@   loop 1
 //@     invariant onfault_calls() == old(onfault_calls())
 
